@@ -55,7 +55,7 @@ m = {
     "hooks": {
         "guard": "ASYNQ_VERIF_TRACE",
         "enable": "none needed: checks observe through the public API (subclasses of BatchBase/BatchItemBase/AsyncContext, scheduler event hooks, generated @asynq bodies); no hook commit exists in /repo",
-        "baseline_off_cmd": "bin/baseline_off",
+        "baseline_off_cmd": "/verif/bin/baseline_off",
         "source_commits": [],
         "add_only": True,
     },
